@@ -601,3 +601,12 @@ Proof.
   eapply Forall_impl; [|exact S]. intros [dc i out| |]; cbn [call_ok]; try tauto.
   intros -> ->. cbn [app]. destruct (hash_appendhash H i) as [E1 E2]. rewrite E1, E2. reflexivity.
 Qed.
+
+Lemma run_calls_spec' slack (H : bytes -> bytes) cs h known :
+  Forall (valid h) known ->
+  let '(rs, hf, kf) := run_calls slack H h known cs in
+  Forall (call_ok H) rs /\ Forall (valid hf) kf.
+Proof. apply run_calls_spec. Qed.
+
+Lemma tail_tables : caps_tail = tail_as_modelled /\ caps_hash_dst = TNil.
+Proof. exact (conj tbl_tail tbl_hash_dst). Qed.
